@@ -3,9 +3,15 @@ from concurrent.futures import ThreadPoolExecutor
 
 ROOT = os.path.dirname(os.path.dirname(os.path.abspath(__file__)))
 COQ = os.path.join(ROOT, "coq")
-BUILD = os.path.join(ROOT, "build")
-HARNESS = os.path.join(ROOT, "harness")
-EVID = os.path.join(ROOT, "evidence")
+HARNESS_SRC = os.path.join(ROOT, "harness")
+# VERIF_REPO (for experiments with seeded changes only): run the same check against another
+# copy of the library without touching /repo.  Everything it writes goes to build/alt-<tag>/;
+# evidence/ is only ever written by runs against /repo itself.
+REPO = os.path.abspath(os.environ.get("VERIF_REPO", "/repo"))
+ALT = REPO != "/repo"
+BUILD = os.path.join(ROOT, "build") if not ALT else os.path.join(ROOT, "build", "alt-" + re.sub(r"[^A-Za-z0-9]+", "_", REPO).strip("_"))
+HARNESS = HARNESS_SRC if not ALT else os.path.join(BUILD, "harness")
+EVID = os.path.join(ROOT, "evidence") if not ALT else os.path.join(BUILD, "evidence")
 REPLAYS = os.path.join(BUILD, "replays")
 
 GOENV = dict(os.environ, GOFLAGS="-mod=mod", GOPROXY="off")
@@ -25,7 +31,8 @@ def log(*a):
 class Lock:
     def __init__(self, name):
         os.makedirs(BUILD, exist_ok=True)
-        self.path = os.path.join(BUILD, name)
+        # the Coq build is shared by all runs; the Go build is per library copy
+        self.path = os.path.join(ROOT, "build", name) if name == ".coq.lock" else os.path.join(BUILD, name)
     def __enter__(self):
         self.f = open(self.path, "w")
         fcntl.flock(self.f, fcntl.LOCK_EX)
@@ -54,7 +61,13 @@ def build_harness(race=False):
     """Build the implementation driver from /repo's current working tree, hooks on.
     race=True builds a second binary with the Go race detector (C12)."""
     with Lock(".go.lock"):
-        shutil.copyfile("/repo/go.sum", os.path.join(HARNESS, "go.sum"))
+        if ALT:
+            if os.path.isdir(HARNESS):
+                shutil.rmtree(HARNESS)
+            shutil.copytree(HARNESS_SRC, HARNESS)
+            gm = open(os.path.join(HARNESS, "go.mod")).read().replace("=> /repo", "=> " + REPO)
+            open(os.path.join(HARNESS, "go.mod"), "w").write(gm)
+        shutil.copyfile(os.path.join(REPO, "go.sum"), os.path.join(HARNESS, "go.sum"))
         r = run(["go", "build", "-tags", "verif", "-o", os.path.join(BUILD, "impl"), "."],
                 cwd=HARNESS, env=GOENV, timeout=900)
         if r.returncode == 0 and race:
